@@ -108,7 +108,9 @@ Inductive form :=
 | FPointer       (* pointer used as iterator *)
 | FContigIter    (* std::vector<U>::iterator *)
 | FListIter      (* std::list<U>::iterator *)
-| FMoveIter.     (* std::move_iterator over a contiguous iterator *)
+| FMoveIter      (* std::move_iterator over a contiguous iterator *)
+| FDequeIter     (* std::deque<U>::iterator: random access, operator-> yields a pointer, NOT contiguous *)
+| FReverseIter.  (* std::vector<U>::reverse_iterator: likewise *)
 
 Definition is_range (f : form) : bool :=
   match f with FVector | FList | FGenerated | FCArray => true | _ => false end.
@@ -155,7 +157,7 @@ Definition vty_of_code (c : nat) : vty :=
 Definition form_of_code (c : nat) : form :=
   match c with
   | 0 => FVector | 1 => FList | 2 => FGenerated | 3 => FCArray | 4 => FPointer | 5 => FContigIter
-  | 6 => FListIter | _ => FMoveIter
+  | 6 => FListIter | 7 => FMoveIter | 8 => FDequeIter | _ => FReverseIter
   end%nat.
 Definition construct_case (tc uc fc : nat) (rv : bool) (n : nat) (src : list Z) : list (list Z) * list Z :=
   let T := vty_of_code tc in let U := vty_of_code uc in let f := form_of_code fc in
